@@ -93,8 +93,11 @@ func isReadFile(f experimentalsys.File) bool { _, ok := f.(*readFile); return ok
 //@ iface (f experimentalsys.File) Pread(buf []byte, off int64) (n int, errno experimentalsys.Errno)
 //@   ensures 0 <= n && n <= len(buf)
 //@   modifies elems(buf)
+// (Seek additionally records what it was asked and what it answered in ghost registers, so that the
+// WASI glue can be specified: C16)
 //@ iface (f experimentalsys.File) Seek(offset int64, whence int) (newOffset int64, errno experimentalsys.Errno)
-//@   modifies nothing
+//@   ensures verif_ghost_int("seekOff") == int(offset) && verif_ghost_int("seekWhence") == whence && verif_ghost_int("seekRes") == int(newOffset) && verif_ghost_int("seekCalls") == old(verif_ghost_int("seekCalls")) + 1
+//@   modifies ghost("seekOff"), ghost("seekWhence"), ghost("seekRes"), ghost("seekCalls")
 //@ iface (f experimentalsys.File) Readdir(n int) (dirents []experimentalsys.Dirent, errno experimentalsys.Errno)
 //@   ensures verif_fresh_slice(dirents)
 //@   modifies nothing
@@ -105,8 +108,8 @@ func isReadFile(f experimentalsys.File) bool { _, ok := f.(*readFile); return ok
 //@   ensures fsMutations() == old(fsMutations()) + 1 && 0 <= n && n <= len(buf)
 //@   modifies ghost("fsMutations")
 //@ iface (f experimentalsys.File) Truncate(size int64) experimentalsys.Errno
-//@   ensures fsMutations() == old(fsMutations()) + 1
-//@   modifies ghost("fsMutations")
+//@   ensures fsMutations() == old(fsMutations()) + 1 && verif_ghost_int("truncSize") == int(size) && verif_ghost_int("truncCalls") == old(verif_ghost_int("truncCalls")) + 1
+//@   modifies ghost("fsMutations"), ghost("truncSize"), ghost("truncCalls")
 //@ iface (f experimentalsys.File) Sync() experimentalsys.Errno
 //@   ensures fsMutations() == old(fsMutations()) + 1
 //@   modifies ghost("fsMutations")
